@@ -4,7 +4,7 @@ import random
 from fractions import Fraction
 
 import treeutil as tu
-from common import time_limit, hex6
+from common import time_limit, hex6, Timeout
 
 ID = "C07"
 GEN_DEPENDS = []
@@ -24,10 +24,15 @@ MODELLED_NOT_VERIFIED = [
     "C07: RNG draws of randomly_reorient/randomly_rotate are recorded from the implementation (scripted rng) and replayed into the model",
     "C07: floating point is not modelled; all generated lengths are dyadic so that every sum, difference and halving is exact",
 ]
-EXPLANATION = ("Theorems (Props/C07.lean): the chain of edge inversions of reseed_at is a sequence of single root inversions (inv_reach), each "
-               "of which keeps leaves and every leaf-to-leaf path length (reseed_paths); structural specs of the re-hung root "
-               "(rerooted node is the root, carries the old seed's edge length); midpoint walk arithmetic (midwalk_spec); outgroup first; "
-               "rooting-flag specs for soft/hard operations; permutation invariants of ladderize/reorder/rotate. See the file for _partial forms.")
+EXPLANATION = ("Theorems (Props/C07.lean, about the definitions drv_c07 runs): invert_is_chain (the inversion loop of reseed_at is a chain of "
+               "single root inversions) and reseed_invariant / reroot_at_node_invariant (for every tree with a non-unary seed, every internal "
+               "target and flag: leaves, total length and every leaf-to-leaf path length are kept, exact rationals, None = 0; stated for the "
+               "inversion chain, i.e. collapse/suppress switched off); reseed_root_is_target (the requested node is the root and the seed's own "
+               "edge length travels with it); inversion_step_keeps_unrooted_splits_partial (one inversion keeps the normalised split set; chain "
+               "not assembled); midpoint_walk_spec_partial (the walk stops exactly at half the distance, at the TAIL node on equality); "
+               "outgroup_first; rooting-flag specs for soft and hard operations; ladderize/reorder/rotate_invariant_partial (leaves and total "
+               "length; path lengths under child permutations not proved). Not proved, covered by correspondence + oracle only: the clean-up "
+               "steps (basal collapse, unifurcation suppression) keep path lengths; reroot_at_edge distances; equidistance after midpoint rooting.")
 
 SOFT = {"reseed", "outgroup", "reorient", "rotate", "ladderize", "reorder"}
 HARD = {"rerootnode", "rerootedge", "midpoint"}
@@ -655,6 +660,10 @@ def one_case(ctx, dendropy, case, pending, kind=None):
             rec = run_impl(dendropy, case, tree, ids)
     except Exception as e:   # noqa
         exc = e
+    except Timeout:
+        ctx.case([case["op"], case["tree"], case["flag"], case["args"]], True, sample=case, kind=kind or case["op"])
+        ctx.fail("hang", "%s did not return within 20 s" % case["op"], case)
+        return
     key = [case["op"], case["tree"], case["flag"], {k: v for k, v in case["args"].items()}]
     if exc is not None:
         ctx.case(key, True, sample=case, kind=kind or case["op"])
@@ -756,12 +765,12 @@ WEIGHTS = [("reseed", 22), ("rerootnode", 10), ("rerootedge", 14), ("midpoint", 
 def run(ctx):
     dendropy = __import__("dendropy")
     rng = ctx.rng
-    ctx.set_budget(40, 780)
+    ctx.set_budget(45, 780)
     pending = []
-    ncases = ctx.pick(6000, 60000)
+    ncases = ctx.pick(16000, 200000)
     max_leaves = ctx.pick(10, 30)
     ops = [o for o, w in WEIGHTS for _ in range(w)]
-    random_budget = ctx.pick(40, 300)
+    random_budget = ctx.pick(30, 300)
     import time
     t0 = time.time()
     for k in range(ncases):
